@@ -499,6 +499,7 @@ class OverhangFilter(Module):
     def _sensitivity(self, dxprint):
         x = self.sig_in[0].state
         xprint = self.sig_out[0].state
+        dxprint = dxprint.copy()  # The layer sweep accumulates into this array; do not modify the seed
         dx = np.zeros_like(dxprint)
 
         # Size of the domain
@@ -506,6 +507,8 @@ class OverhangFilter(Module):
 
         dir_layer = int(np.argmax(abs(self.direction)))  # The axis of the print direction
         dx_layer = int(np.sign(self.direction[dir_layer]))  # Iteration direction
+        if size[dir_layer] < 2:
+            return dxprint  # Only a base layer, which is directly transferred
         ind_layer = size[dir_layer]-1 if dx_layer >= 0 else 0  # Starting index (="ending" in response)
 
         dir_orth1 = (dir_layer + 1) % 3
